@@ -1319,6 +1319,14 @@ func (e *Enc) convert(fr *frame, st *State, x *ssa.Convert) Value {
 		e.bytesOfString(st, v, a.term)
 		return v
 	case sf == sortSlice && sto == sortString:
+		if et, ok := from.Underlying().(*types.Slice); ok {
+			if b, ok := et.Elem().Underlying().(*types.Basic); ok && b.Kind() == types.Uint8 {
+				// string(b) is a function of the bytes of b at this moment
+				v := Value{term: e.q.define(fr.prefix+x.Name(), sortString, e.bytesToString(st, a)), typ: to}
+				st.assume("(= (s_len " + a.term + ") (str.len " + v.term + "))")
+				return v
+			}
+		}
 		v := Value{term: e.q.fresh(fr.prefix+x.Name(), sortString), typ: to}
 		st.assume("(= (s_len " + a.term + ") (str.len " + v.term + "))")
 		return v
@@ -1326,6 +1334,14 @@ func (e *Enc) convert(fr *frame, st *State, x *ssa.Convert) Value {
 		return Value{term: a.term, typ: to}
 	}
 	panic(fmt.Sprintf("convert %s -> %s", from, to))
+}
+
+// bytesToString: the string conversion of a byte slice, as an uninterpreted
+// function of its backing array, offset and length.
+func (e *Enc) bytesToString(st *State, a Value) string {
+	ek := e.elemKey(types.Typ[types.Uint8])
+	e.v.declFun("bytes2str", "((Array Int Int) Int Int) String")
+	return fmt.Sprintf("(bytes2str (select %s (s_arr %s)) %s (s_len %s))", st.get(ek), a.term, e.q.offOf(a.term), a.term)
 }
 
 func (e *Enc) bytesOfString(st *State, sl Value, s string) {
